@@ -35,6 +35,7 @@ def check(tier, seed):
         cases = []
         groups = [0, 1, 6, 0x31, 255] + [rng.randrange(256) for _ in range(3 if tier == 'quick' else 40)]
         items = [0, 1, 0x2D, 0x3FF, 0x400, 0x7FF, 0x800, 0xFFF] + [rng.randrange(4096) for _ in range(3 if tier == 'quick' else 40)]
+        K.impl_unpack((0x3006002e).to_bytes(4, 'little') + b'\xff\xff', True)      # the shared decoder has seen a signed key
         pairs = [(g, i) for g in groups for i in items] + [((k >> 16) & 255, k & 4095) for k in kt['signed']] + [(6, 0x2D), (6, 0x30)]
         for g, i in pairs:
             if True:
@@ -46,7 +47,7 @@ def check(tier, seed):
                             cases.append(Case('cfg-pack', 'cpack ' + K.item_token(g, i, bits, signed, v), packed, desc, kind=f'pack/{bits}/{"s" if signed else "u"}'))
                             if not packed.startswith('!'):
                                 raw = bytes.fromhex(packed)
-                                un = C.guarded(K.impl_unpack, raw)
+                                un = C.guarded(K.impl_unpack, raw, rng.random() < 0.5)
                                 cases.append(Case('cfg-unpack-of-pack', f'cunpack {sk} {packed}', un, desc, kind=f'unpack/{bits}', nontrivial=False))
                                 # implementation-only round trip (C13 first sentence)
                                 key = (CfgKeyData.SIZE_FROM_BITS[bits] << 28) | (g << 16) | i
